@@ -564,9 +564,17 @@ func (a *Analysis) scopeExit(b *cfg.Block, st State) State {
 	if len(dead) == 0 {
 		return st
 	}
-	return st.Kill(func(at *Atom) bool {
-		return at.Mentions(func(t *Term) bool { return t.K == 'v' && t.Obj != nil && dead[t.Obj] })
-	})
+	// substitute-on-kill, so that facts learned through a scoped variable
+	// (`if ref := f(x); ref != nil && ...`) survive as facts about f(x)
+	var objs []types.Object
+	for obj := range dead {
+		objs = append(objs, obj)
+	}
+	sort.Slice(objs, func(i, j int) bool { return objs[i].Pos() < objs[j].Pos() })
+	for _, obj := range objs {
+		st = a.killVar(st, obj)
+	}
+	return st
 }
 
 // flowBlock pushes a state through the nodes of b from index idx and returns
